@@ -138,17 +138,20 @@ CLAIMS['C15'] = dict(
          "space, three representations): each channel within the declared bounds; array level sampled on 3x4 / 3x5 grids "
          "(declared Space and advertised gym space contain convert()). Proved on the side: StateSpace / ObservationSpace "
          "membership predicates, ObservationSpace view area and anchor, outer_space_to_gym_space (same bounds, dtype by "
-         "space type). Arbitrary grid shapes at the array level are not proved (numpy tiling is outside the verifier).",
+         "space type), and - for grids of any shape - the array level of convert(): normalised agent pose inside [-1, 1] with "
+         "a one-hot heading, agent marker, item = encoder(held object), grid entry (y, x) = encoder(object in that cell) for "
+         "an arbitrary per-object encoder. Not proved: the tiled bounds arrays of the spaces (numpy tiling / dtypes).",
     design='5/C15',
     technique='exhaustive finite enumeration of the per-object encoders on the real functions + contracts on the space predicates',
-    note='bounded at the array level (one sampled member per space on small shapes); closed world of the registered classes')
+    note='per-object layer: exhaustive native enumeration (closed world of the registered classes); array level proved for an uninterpreted encoder; space bounds arrays sampled')
 CLAIMS['C16'] = dict(
     category='exploration',
     text="Exhaustive enumeration on the real code of the per-object encoders of every space (as in C15): equal encodings iff "
          "equal objects, default = (type, status, colour) index triple, no-overlap channels pairwise disjoint, compact values "
-         "consecutive from zero; positional encoding, agent marker and state/observation-level faithfulness sampled with "
-         "single-change variants on 3x4 / 3x5 grids. Proved: GridObject equality is an equivalence on (type, status, colour) "
-         "and equal objects hash alike. Known finding (D8): observation representations do not encode the agent's orientation.",
+         "consecutive from zero; state/observation-level faithfulness sampled with single-change variants on 3x4 / 3x5 grids. "
+         "Proved for grids of any shape: entry (y, x) is the same encoder applied to the object in that cell, the agent marker "
+         "is 1 exactly at the agent's cell, item = encoder(held object), pose entries determine position and heading; "
+         "GridObject equality is an equivalence on (type, status, colour) and equal objects hash alike. Known finding (D8): observation representations do not encode the agent's orientation.",
     design='5/C16',
     technique='exhaustive finite enumeration of the per-object encoders on the real functions + eq/hash lemma',
     note='bounded at the array level; one known finding listed in known_findings.txt')
